@@ -8,12 +8,16 @@ import eqlgen as G
 from core import Case, CheckBroken
 
 PID = "C01"
-LEAN_MODULES = ["KrroodVerif.Props.C01"]
+LEAN_MODULES = ["KrroodVerif.Props.C01", "KrroodVerif.Props.C01Union"]
 THEOREMS = [
     "KrroodVerif.Eql.C01_cover",
     "KrroodVerif.Eql.C01_sound_complete_partial",
     "KrroodVerif.Eql.C01_sound_complete_F1_partial",
     "KrroodVerif.Eql.satE_build",
+    "KrroodVerif.Eql.C01_sound_complete_union_partial",
+    "KrroodVerif.Eql.union_true_sound",
+    "KrroodVerif.Eql.union_true_complete",
+    "KrroodVerif.Eql.union_cell_complete",
     "KrroodVerif.Eql.C01_cex_negUnion",
     "KrroodVerif.Eql.C01_cex_selectIndependent",
     "KrroodVerif.Eql.C01_cex_falsyBound",
